@@ -362,6 +362,8 @@ def random_run(chk, rnd, sizes, wcomp, rcomp, transport, fault_p):
     payloads = [payload(n, k, rnd) for n, k in zip(sizes, kinds)]
     state = {"fault": None}
     frag = rnd.choice([None, None, 1, 3, 1000, 5000, 70000])
+    if frag is not None and frag < 1000 and max(sizes or [0]) > 50000:
+        frag = 1000          # byte-wise fragmentation of a megabyte only exhausts the step budget
 
     def script(sock, op, callno, arg):
         if op == "poll":
@@ -385,7 +387,9 @@ def random_run(chk, rnd, sizes, wcomp, rcomp, transport, fault_p):
         try:
             fx.sched.run(sim.RandomPolicy(random.Random(rnd.random()), stickiness=0.7), max_steps=2000000)
         except sim.StepLimit as ex:
-            dead = str(ex)
+            # the harness's own budget, not a property of the transfer
+            chk.drift.append("step budget exhausted for sizes %s, fragmentation %s: %s" % (list(sizes), frag, ex))
+            return {"lens": list(sizes), "zlens": [], "comp": wcomp, "events": [], "fault": "budget", "nsent": 0, "nbuf": 0}, [], kinds
         except sim.Deadlock as ex:
             # the writer died: the reader would wait for ever on a socket nobody closes; close the writer's end
             if fx.werr is not None or fx.wdone:
@@ -453,7 +457,7 @@ def main():
                         chk.violation(key, "C05 %s [sizes %s (%s), compression %s/%s, %s, fault %s]" % (
                             msg, sizes, kinds, wcomp, rcomp, transport, tr["fault"]),
                             {"mode": "random", "sizes": sizes, "wcomp": wcomp, "rcomp": rcomp, "transport": transport})
-                    if len(tr["events"]) < 4000:
+                    if tr["fault"] != "budget" and len(tr["events"]) < 4000:
                         traces.append(tr)
         gc.collect()
     validate(chk, traces)
